@@ -2,6 +2,7 @@ package updates
 
 import (
 	"fmt"
+	"math"
 	"reflect"
 
 	"github.com/ovn-org/libovsdb/mapper"
@@ -384,6 +385,10 @@ func (u *ModelUpdates) addMutateOperation(dbModel model.DatabaseModel, table, uu
 		}
 
 		newValue, diff := mutate(current, mutation.Mutator, nativeValue)
+		// RFC 7047 5.2.4: a result that can not be represented is a range error
+		if !isFinite(newValue) {
+			return &ovsdb.RangeError{}
+		}
 		if err := newInfo.SetField(mutation.Column, newValue); err != nil {
 			return err
 		}
@@ -525,4 +530,20 @@ func updateOrModifyModel(dbModel model.DatabaseModel, table string, info *mapper
 	}
 
 	return changed, nil
+}
+
+// isFinite tells whether a mutated value, if it is a real or a set of reals,
+// holds finite numbers only
+func isFinite(value interface{}) bool {
+	switch v := value.(type) {
+	case float64:
+		return !math.IsInf(v, 0) && !math.IsNaN(v)
+	case []float64:
+		for _, f := range v {
+			if math.IsInf(f, 0) || math.IsNaN(f) {
+				return false
+			}
+		}
+	}
+	return true
 }
